@@ -9,6 +9,8 @@ THEOREMS = [
     'Sc.no_lock_witness',
     # where the lock comes from (model Ll): created with the object = mutual exclusion under every schedule; created on first use = not (witness)
     'Ll.init_inv', 'Ll.run_inv', 'Ll.exec_inv', 'Ll.eager_lock_mutual_exclusion', 'Ll.lazy_lock_witness',
+    # HOW the lock is taken: a timed acquire that never times out is the blocking one; one whose result is ignored excludes nobody (witness)
+    'Ll.execT_no_timeout', 'Ll.timed_ignored_witness',
     # tasks x shared memo caches: generic non-interference
     'Ni.step_coherent', 'Ni.exec_coherent', 'Ni.memo_transparent', 'Ni.noninterference_of_local_steps',
     # the kinds of process-wide state of the inventory: shared bounded memo at lookup/compute/store granularity (model Sm) ...
@@ -28,6 +30,8 @@ STATEMENTS = {
     'Ll.eager_lock_mutual_exclusion': 'a lock object created together with the long-lived object (CompiledRouter.__init__: self._compile_lock = Lock()) - for ANY number of threads and ANY schedule of the steps read-the-attribute / acquire / release: at most one thread is inside the critical section, every thread inside holds that one lock, and no second lock object ever exists (this discharges what Sc assumes: Sh.lock is ONE lock that is part of the initial state)',
     'Ll.run_inv': 'one step of any thread preserves: the cell holds the eager lock, every thread refers to it only, and "held = [] and nobody inside" or "held = [l0] and exactly one thread inside"',
     'Ll.lazy_lock_witness': 'a lock created on first use by `lock = self._lock; if lock is None: lock = self._lock = Lock()` is NOT an idempotent lazy cell: on an 8-step schedule of two threads both are inside the critical section at once, holding different lock objects (Lz.lazy_init_idempotent needs a deterministic, unobservable value - a lock is neither)',
+    'Ll.timed_ignored_witness': 'HOW the lock is taken is part of the protocol: with the lock created in __init__ (eager) but taken by `acquired = lock.acquire(timeout=t)` and the critical section entered whatever the result (release only if acquired), on a 4-step schedule of two threads in which the second thread\'s time-out fires both threads are inside the critical section, one lock exists and only thread 0 holds it (regression witness; Ll.eager_lock_mutual_exclusion is about `with lock:` / a blocking acquire)',
+    'Ll.execT_no_timeout': 'the step relation with timed acquires (runT/execT) restricted to schedules in which no time-out fires is the blocking step relation (run/exec) the invariants are proved for',
     'Ni.noninterference_of_local_steps': 'tasks whose steps read/write only their own component and consult shared state only through a memo of a pure function: after ANY interleaving (and any memo evictions) the state of task i is what i alone reaches in the same number of its own steps',
     'Ni.memo_transparent': 'a lookup through a coherent memo (entries only ever (k, f k)) returns f k',
     'Sm.memo_transparent': 'N threads sharing a bounded memo table of a pure function f, each call being the separate steps lookup / compute (outside any lock) / store: for EVERY schedule of calls, steps and cache_clear()s, every capacity and every store policy (keep or overwrite an entry stored meanwhile by another thread, skip when full, evict ANY entry - LRU is one choice), every completed call for key k returned f k, what a thread is about to store or return is f of its key, the table only ever holds pairs (k, f k) and never more than `cap` of them; results that are exceptions are never stored',
@@ -46,7 +50,8 @@ STATEMENTS = {
 }
 TRUSTED = [
     'sys.settrace line/opcode events as preemption points: CPython switches threads only between bytecodes, so every real interleaving of the traced code is a sequence of these steps (the converse - that each traced step is atomic - holds under the GIL; C-level GIL releases inside one bytecode are not exhibited)',
-    'the scheduler-aware lock (harness/lib_sched.SLock) behaves like threading.Lock / RLock (context manager and acquire/release); harness/lib_sched.LockPatch puts one in place of every lock the code under test creates (threading.Lock / RLock called from a file under falcon/, under whatever module-level name) or already holds (module globals, instance and class attributes of the router / app and of the falcon objects they refer to) - no attribute name is assumed; a lock reached only through a closure cell or a C extension stays a real lock (a preempted holder then shows up as a reported deadlock, not as a crash)',
+    'the scheduler-aware lock (harness/lib_sched.SLock) behaves like threading.Lock / RLock in every way the code may take it: `with lock:` / acquire() wait for the holder; acquire(blocking=False) and acquire(timeout=0) return False at once when the lock is taken; '
+    'acquire(timeout=t) on a lock another thread holds is a CHOICE of the schedule - wait and return True, or return False (in logical time the holder can be parked longer than any t), both explored; release() of an unlocked lock raises; harness/lib_sched.LockPatch puts one in place of every lock the code under test creates (threading.Lock / RLock called from a file under falcon/, under whatever module-level name) or already holds (module globals, instance and class attributes of the router / app and of the falcon objects they refer to) - no attribute name is assumed; a lock reached only through a closure cell or a C extension stays a real lock (a preempted holder then shows up as a reported deadlock, not as a crash)',
     'the scripted asyncio gate (one task runs between two decisions of the controller) for the ASGI interleavings',
     'the AST scan of harness/lib_inventory.py as the enumeration of process-wide state: purely syntactic detectors (memo decorators and their aliases, memo applications as call expressions anywhere, partial objects binding containers, module-level containers and instances, mutable default arguments, class attributes, instance attributes of long-lived classes written outside __init__ directly or through a local alias, lazy-initialisation idioms, nonlocal cells, objects handed to local helper closures, closure cells of factory functions bound by an assignment (a captured PARAMETER is the caller\'s object and is not reported), raises of pre-existing objects); state reached only through other aliases, setattr()/__dict__, C extensions or modules outside falcon/ (and falcon/testing, bench, cmd, vendor, cyutil) is not seen',
     'the hand-written classification of the inventory table (kind + justification per item): the check ties its SHAPE to the source on every run and validates "immutable result" dynamically, but e.g. "written by add_route() only" is a reading of the code',
@@ -66,6 +71,10 @@ RULE = ('(a) router race: routers generated from 3 route sets (fields, int/uuid 
         'every lock the router creates or holds - eagerly or lazily, under any attribute name - is made scheduler-aware by patching threading.Lock/RLock for callers under falcon/ and adopting existing lock objects (no attribute name assumed); '
         'each explored schedule is replayed through the Lean model Sc (locking = true, one lock that exists before the first request: the reply carries locks=<created>:<eagerly>) and its lock protocol through the model Ll (eager); '
         'self-tests of the exploration on the same schedules: a no-op lock (Sc replay without locking) and a lock created on first use by an unsynchronised check-then-set (Ll replay, lazy) put in place of the router\'s lock(s); '
+        'HOW THE LOCK IS TAKEN is an input too: a schedule = the preemption points + for every timed acquire (lock.acquire(timeout=t)) that finds the lock held by another thread, whether the holder releases first (True) or the time-out fires first (False, the thread goes on without the lock); '
+        'every explored preemption schedule (flat and window tree, nodes and leaves) in which such contested timed acquires occur is also run with the subsets of them timing out (enumerated in increasing order; thorough: all, up to 32 per preemption schedule; quick: 3 PRNG-chosen), each judged by the same oracle and replayed through Sc/Ll; '
+        'non-blocking acquires are refused at once when the lock is taken (their outcome is decided by the preemption points); the unchanged router takes its lock with `with` only (counters race_lock_taken_by_<form>), so a third self-test puts a lock in its place that is taken by acquire(timeout) with the result ignored '
+        '(Ll.timed_ignored_witness): only the time-out branches expose it; '
         '(b) 2-3 concurrent ASGI requests over generated apps (routes with fields/converters, LITERAL-ONLY routes, middleware, media, errors, custom error handlers; in half of the apps a resource middleware that MUTATES what the framework hands it between suspension points: '
         'injects responder arguments through params (scalar and a mutable trail), completes the parsed req.get_media() document in place, appends to lists/dicts it keeps in req.context / resp.context; responders take **kwargs and report them late, and complete the parsed document in place before a suspension point), '
         'interleaved at every receive/send and at explicit awaits inside middleware/responders in a PRNG-chosen order, and 2-3 WSGI threads (deterministic scheduler with PRNG preemption points at line events inside falcon/, and free-running threads), each compared with one-at-a-time execution on an identical app of its own '
@@ -82,6 +91,7 @@ RULE = ('(a) router race: routers generated from 3 route sets (fields, int/uuid 
         'CLOSURE CELLS (a local of a factory function bound there to a container / instance / call result / alias and free in an inner function - the responder made per route, the wrapper made per decorated function - with what the inner function does with it: read / call / pass on / RAISE / RETURN / mutate; a fresh instance or container that is raised or returned is one object handed to every request and is admitted by no proved kind), '
         'raise of a pre-existing object (raise self.X in a long-lived class, raise of a module-level non-class object), '
         'instance attributes of long-lived classes written outside __init__ directly or through a local alias (x = self.X; x[k] = v), and lazy initialisation (if self.X is None / not self.X / not hasattr / try-except AttributeError: self.X = V, also through an alias and chained assignment) with the kind of value created - a lazily created LOCK is a shape no proved kind admits; '
+        'CONDITIONAL LOCK ACQUISITIONS (every <expr>.acquire(...) call with an argument - blocking=False, timeout=t - and what becomes of its result: ignored / tested / bound to a name that only guards the release in a finally clause ...): the kind lock-protected is proved for `with lock:` / a blocking acquire only, any conditional acquisition is an item of its own; '
         'every memoised function the scan finds - in the table or not, module-level or created in a method and stored on a default-constructed instance - is called twice with equal PRNG arguments, the first result mutated in place deeply, the next call compared with a fresh uncached computation; for the private mutable-result memos of mediatypes the same at their only caller quality(); '
         '(d) memo model: for each lru_cache-wrapped function of the inventory, PRNG call sequences of 0.5-3 x maxsize calls over maxsize+k keys (hits, misses, evictions, exceptions, cache_clear) on one thread, and 2-3 threads with 1-3 calls each over 1-3 keys under the deterministic scheduler with 1-4 PRNG preemptions inside the Python body (between lookup and store), the cache preloaded to (almost) full in 60% of the races; the ASGI header-name cache with 20-90 names; value/hits/misses/size after every call are replayed through the model; '
         'non-trivial = at least one preemption took place while another request was in flight / a sequence with hits and evictions / an inventory item; distinct = distinct (route set, paths, switch points) / (app, requests, schedule seed) / (function, call sequence) / item')
@@ -268,10 +278,11 @@ def _router_race(ctx):
             out.append((id(v), len(v) if type(v) in (list, dict, set) else -1))
         return out
 
-    def execute(rs, paths, switches, lockmode='lock', record=False):
-        """One race under one schedule.  Returns (results, sched, info)."""
+    def execute(rs, paths, switches, lockmode='lock', record=False, timeouts=()):
+        """One race under one schedule (= the preemptions `switches` + the contested timed acquires `timeouts` that time out).
+        Returns (results, sched, info)."""
         n = len(paths)
-        s = lib_sched.Sched(n, switches)
+        s = lib_sched.Sched(n, switches, timeouts=timeouts)
         tls = threading.local()
         locks.activate(s, lambda: tls.i, lockmode)
         try:
@@ -367,6 +378,8 @@ def _router_race(ctx):
             results = lib_sched.run_threads(s, [body(i) for i in range(n)], tracer_for)
             info['compiled_finally'] = getattr(router, '_find', None) != stub
             info['locks'] = (len(locks.created), eager_locks)
+            # how the code took its lock(s) and what became of the conditional acquires (non-blocking / timed) that found the lock taken
+            info['tacq'], info['cond'], info['forms'] = s.tacq, list(s.cond_log), dict(s.lock_forms)
             # the lock protocol as the model Ll sees it: one entry per step (read the cell / create / store / acquire or find taken / release)
             numbering = {id(lk): k + 1 for k, lk in enumerate(locks.lazy_created if lockmode == 'lazy' else locks.created)}
             ll_sched, acq, inside, maxcrit, state = [], [], 0, 0, {}
@@ -413,9 +426,31 @@ def _router_race(ctx):
                    f"{pcs} acq={acq} nlocks={ll['nlocks']} maxcrit={ll['maxcrit']} agree=1")
 
     def check(rs, paths, switches, nthreads, selftest=None, record=False, family='flat'):
-        """selftest: None (the router as it is) | 'nolock' (a lock that does not lock) | 'lazy' (a lock created on first use)"""
+        """One schedule of preemptions - and, when the code under test takes a lock CONDITIONALLY (lock.acquire(timeout=t) on a lock that
+        another thread holds at that moment), the schedules that differ from it in which of those acquires time out: a timed acquire of a
+        taken lock has two outcomes (the holder releases first / the time-out fires first - the holder may be parked for any length of
+        time), both are inputs of the property.  The subsets of {1..number of contested timed acquires} are enumerated in increasing order
+        (the run with the acquires T timing out tells how many contested acquires follow the last of T); thorough: all of them (up to 32 per
+        preemption schedule), quick: 3 PRNG-chosen ones.  A tree that takes its locks with `with` / a blocking acquire() has none."""
+        bad, s, info = check1(rs, paths, switches, nthreads, selftest, record, family)
+        if info['tacq']:
+            if selftest is None:
+                ctx.count('race_schedules_with_a_contested_timed_acquire')
+            work = [(j,) for j in range(1, info['tacq'] + 1)]
+            budget = 3 if ctx.quick else 32
+            while work and budget:
+                T = work.pop(rnd.randrange(len(work)) if ctx.quick else 0)
+                budget -= 1
+                b2, _, i2 = check1(rs, paths, switches, nthreads, selftest, False, family, timeouts=T)
+                bad = bad or b2
+                work += [T + (j,) for j in range(T[-1] + 1, i2['tacq'] + 1)]
+        return bad, s, info
+
+    def check1(rs, paths, switches, nthreads, selftest=None, record=False, family='flat', timeouts=()):
+        """selftest: None (the router as it is) | 'nolock' (a lock that does not lock) | 'lazy' (a lock created on first use) |
+        'timedignored' (the lock taken with a time-out whose result only decides whether to release)"""
         lockmode = selftest or 'lock'
-        results, s, info = execute(rs, paths, switches, lockmode, record=record)
+        results, s, info = execute(rs, paths, switches, lockmode, record=record, timeouts=timeouts)
         want = [('ok', serial(rs, p)) for p in paths]
         ntab = len(build_tables[rs])
         sched_ids = [str(t) for t, st in s.steps if st in STEP_OK]
@@ -429,6 +464,14 @@ def _router_race(ctx):
         reply = f"{outs} ncomp={info['ncomp']} ev={','.join(info['ev']) or '-'} paths={','.join(paths_cls)} {nlocks} agree=1"
         line = f"exec {0 if selftest else 1} {ntab} {nthreads} {','.join(sched_ids) or '-'}"
         meta = {'routes': rs, 'paths': paths, 'switches': sorted(switches.items())}
+        if timeouts:
+            meta['timed_acquires_that_time_out'] = list(timeouts)
+        if selftest == 'timedignored':
+            ctx.count('selftest_timedignored_schedules')
+            ctx.count('selftest_timedignored_schedules_with_a_timeout_firing', int(bool(timeouts)))
+            ctx.count('selftest_timedignored_contested_timed_acquires', info['tacq'] if not timeouts else 0)
+            ctx.count('selftest_timedignored_nonserial_outcome_or_second_compile', int(results != want or info['compile_calls'] != 1))
+            return (results != want or info['compile_calls'] != 1), s, info
         if selftest == 'lazy':
             ll_case(info, nthreads, False, dict(meta, lock='created on first use (harness mutant)'))
             ctx.count('selftest_lazylock_schedules')
@@ -445,7 +488,7 @@ def _router_race(ctx):
             else:
                 ctx.count('selftest_nolock_thread_died')
             return (results != want or info['compile_calls'] != 1), s, info
-        key = (rs, tuple(paths), tuple(sorted(switches.items())))
+        key = (rs, tuple(paths), tuple(sorted(switches.items())), tuple(timeouts))
         if key in done_keys:
             return False, s, info
         done_keys.add(key)
@@ -464,6 +507,9 @@ def _router_race(ctx):
             why = f"_compile() ran {info['compile_calls']} times (router compiled at the end: {info['compiled_finally']})"
         case = {'routes': ROUTESETS[rs], 'paths': paths, 'switch_points': sorted(switches.items()),
                 'model_schedule': ','.join(sched_ids), 'compile_events': info['ev'],
+                'contested_timed_acquires_that_time_out': list(timeouts),
+                'conditional_acquires_that_found_the_lock_taken': [f'#{k} thread {t} {form}: {out}' for k, t, form, out in info['cond']],
+                'how_the_lock_was_taken': info['forms'],
                 'locks_created_by_the_router': info['locks'][0], 'of_them_before_the_first_request': info['locks'][1],
                 'results': results if why else None}
         if why is None:
@@ -471,8 +517,14 @@ def _router_race(ctx):
         else:
             # reported at the end of the part, a wrong or failed RESPONSE (what the property is about) before a second compile (what the protocol forbids)
             pending_failures.append((0 if (results != want and not s.dead) else 1, len(pending_failures), why, case))
-        ctx.seen(('a', rs, tuple(paths), tuple(sorted(switches.items()))), s.preemptions > 0)
+        ctx.seen(('a', rs, tuple(paths), tuple(sorted(switches.items()))) + ((tuple(timeouts),) if timeouts else ()), s.preemptions > 0)
         ctx.count(f'race_{family}_{nthreads}thr_{len(switches)}preempt')
+        for form, k in info['forms'].items():
+            ctx.count('race_lock_taken_by_' + form, k)
+        if info['cond']:
+            ctx.count('race_conditional_acquires_that_found_the_lock_taken', len(info['cond']))
+            ctx.count('race_timed_acquires_that_timed_out', sum(1 for c in info['cond'] if c[3] == 'timed-out'))
+            ctx.count('race_nonwaiting_acquires_refused', sum(1 for c in info['cond'] if c[3] == 'refused'))
         ctx.count('race_paths_' + ''.join(sorted(paths_cls)))
         if why is not None:
             failures[0] += 1
@@ -498,6 +550,7 @@ def _router_race(ctx):
         nthreads_list = []
     selftest_bad = 0
     selftest_n = 0
+    timed_bad = timed_n = 0
     for rs in range(N_FLAT_ROUTESETS):
         for nthreads in nthreads_list:
             paths = [rnd.choice(PATHS[rs]) for _ in range(nthreads)]
@@ -547,7 +600,15 @@ def _router_race(ctx):
                     continue
                 selftest_n += 1
                 selftest_bad += bool(check(rs, paths, sw, nthreads, selftest='nolock')[0])
+            # ... and against a lock taken with a time-out whose result is ignored: only the schedules in which a time-out fires expose it
+            for idx, sw in enumerate(st[::2]):
+                if idx % k0 != i0:
+                    continue
+                timed_n += 1
+                timed_bad += bool(check(rs, paths, sw, nthreads, selftest='timedignored')[0])
     ctx.notes.append(f'shard {i0}: self-test with a no-op lock created by the harness wherever the router asks for a lock: {selftest_bad} of {selftest_n} explored schedules give a non-serial outcome')
+    ctx.notes.append(f'shard {i0}: self-test with the router\'s lock(s) taken by acquire(timeout=t), result ignored (Ll.timed_ignored_witness): {timed_bad} of {timed_n} preemption schedules have a time-out '
+                     f'branch with a non-serial outcome or a second compile')
     ctx.count('selftest_nolock_schedules', selftest_n)
     ctx.count('selftest_nolock_exposed', selftest_bad)
 
